@@ -77,7 +77,7 @@ def gen_history(draw, tier="quick"):
     else:
         dim = draw(st.sampled_from([1, 2, 3, 4]))
     opt_names = sorted(ref.default_opt(cls, 3))
-    kinds = ["var", "len_scale", "len_list", "anis", "angles", "nugget", "rescale", "dim", "integral_scale", "bounds"]
+    kinds = ["var", "len_scale", "len_list", "anis", "angles", "nugget", "rescale", "dim", "integral_scale", "bounds", "bounds2"]
     kinds += ["var_raw"] if cls in ref.TPL else []
     kinds += ["opt"] * (2 if opt_names else 0)
     kinds += ["hankel_kw"]
@@ -126,6 +126,11 @@ def gen_history(draw, tier="quick"):
         elif k == "bounds":
             name = draw(st.sampled_from(["var", "len_scale", "nugget", "anis"] + opt_names))
             ops.append({"op": "bounds", "name": name, "v": draw(_bounds_for(name)), "check_args": draw(st.booleans())})
+        elif k == "bounds2":
+            # one call with bounds for the variance and for another argument, in either keyword order
+            other = draw(st.sampled_from(["len_scale", "len_scale", "nugget"] + opt_names))
+            names = ["var", other] if draw(st.booleans()) else [other, "var"]
+            ops.append({"op": "bounds2", "names": names, "vs": [draw(_bounds_for(nm)) for nm in names]})
         elif k == "hankel_kw":
             ops.append({"op": "hankel_kw", "v": draw(st.sampled_from([None, {"N": 300}, {"h": 0.002}, {"N": 150, "h": 0.0015}]))})
     return {"cls": cls, "config": config, "dim": dim, "geo_scale": draw(st.sampled_from([1.0, 57.29577951308232, 6371.0])), "ops": ops}
@@ -276,6 +281,8 @@ def _apply_real(m, op):
         setattr(m, op["name"], v)
     elif k == "bounds":
         m.set_arg_bounds(check_args=op["check_args"], **{op["name"]: list(v)})
+    elif k == "bounds2":
+        m.set_arg_bounds(**{nm: list(b) for nm, b in zip(op["names"], op["vs"])})
     elif k == "hankel_kw":
         m.hankel_kw = v
     elif isinstance(v, list) and k in ("len_scale", "anis", "angles") and (len(v) + len(k)) % 2 == 0:
@@ -313,6 +320,14 @@ def _apply_ref(r, op):
         return r.set_dim(v)
     if k == "bounds":
         return r.set_bounds(op["name"], v, op["check_args"])
+    if k == "bounds2":
+        # documented order: the variance is looked at last, whatever the keyword order
+        pairs = sorted(zip(op["names"], op["vs"]), key=lambda p: p[0] == "var")
+        for nm, b in pairs:
+            res = r.set_bounds(nm, b, True)
+            if res[0] != "ok":
+                return res
+        return ("ok", None)
     if k == "hankel_kw":
         return r.set_hankel_kw(v)
     raise common.HarnessError(k)
@@ -374,6 +389,11 @@ def check_history(case, rec):
                 raise Violation(f"{where}: raised {type(e).__name__}: {e}", dict(otags, kind="exception"))
             res, why = _apply_ref(r, op)
             rec.label("accepted" if res == "ok" else "rejected")
+            if res == "reject" and op["op"] == "bounds2":
+                # bounds that cannot be satisfied together: no documented semantics for the half-applied call
+                rec.label("bounds_op_raised" if raised is not None else "bounds2_unsatisfiable")
+                rec.nontrivial(_nontrivial({"ops": case["ops"][: i + 1]}))
+                return
             if res == "ok" and raised is not None:
                 raise Violation(
                     f"{where}: in-bounds assignment rejected: {raised}", dict(otags, kind="spurious_reject")
